@@ -148,12 +148,39 @@ Qed.
 Theorem sender_all_acknowledged blocks :
   stx blocks (flat_map (fun _ => [secsi_EOT; secsi_ACK]) blocks) = (flat_map (fun b => [[secsi_ENQ]; b]) blocks, Some true).
 Proof.
-  induction blocks as [|b r IH]; [reflexivity|]. cbn [flat_map app stx]. rewrite N.eqb_refl. rewrite IH. reflexivity.
+  induction blocks as [|b r IH]; [reflexivity|]. cbn [flat_map app stx await_eot]. rewrite !N.eqb_refl. rewrite IH. reflexivity.
 Qed.
 Theorem sender_nak_fails done b rest answer more : answer <> secsi_ACK ->
   snd (stx (done ++ b :: rest) (flat_map (fun _ => [secsi_EOT; secsi_ACK]) done ++ secsi_EOT :: answer :: more)) = Some false.
 Proof.
-  intro H. induction done as [|d r IH]; cbn [flat_map app stx].
+  intro H. induction done as [|d r IH]; cbn [flat_map app stx await_eot]; rewrite N.eqb_refl.
   - apply N.eqb_neq in H. rewrite H. reflexivity.
   - rewrite N.eqb_refl. destruct (stx (r ++ b :: rest) _) as [sent res] eqn:E. cbn [snd] in *. exact IH.
+Qed.
+
+(* a block is started only after EOT: as long as the peer has not sent EOT, whatever else it sends, nothing but ENQ goes out *)
+Lemma await_no_eot answers : forallb (fun a => negb (a =? secsi_EOT)) answers = true ->
+  await_eot answers = (repeat [secsi_ENQ] (length answers), None).
+Proof.
+  induction answers as [|a r IH]; intro H; [reflexivity|]. cbn [forallb] in H. apply andb_prop in H as [Ha Hr].
+  cbn [await_eot length repeat]. apply negb_true_iff in Ha. rewrite Ha. rewrite (IH Hr). reflexivity.
+Qed.
+Theorem block_only_after_eot blocks answers : forallb (fun a => negb (a =? secsi_EOT)) answers = true ->
+  forall chunk, In chunk (fst (stx blocks answers)) -> chunk = [secsi_ENQ].
+Proof.
+  intros H chunk Hin. destruct blocks as [|b r]; [contradiction Hin|]. cbn [stx] in Hin. rewrite (await_no_eot answers H) in Hin. cbn [fst] in Hin.
+  destruct Hin as [<-|Hin]; [reflexivity|]. apply repeat_spec in Hin. exact Hin.
+Qed.
+(* and a byte that is not EOT is answered by announcing the block again; the block follows the EOT *)
+Theorem block_follows_eot blk rest junk more : forallb (fun a => negb (a =? secsi_EOT)) junk = true ->
+  exists sent res, stx (blk :: rest) (junk ++ secsi_EOT :: more) = (([secsi_ENQ] :: repeat [secsi_ENQ] (length junk)) ++ blk :: sent, res).
+Proof.
+  intro H. assert (A : await_eot (junk ++ secsi_EOT :: more) = (repeat [secsi_ENQ] (length junk), Some more)).
+  { induction junk as [|a r IH]; [cbn [app await_eot length repeat]; rewrite N.eqb_refl; reflexivity|].
+    cbn [forallb] in H. apply andb_prop in H as [Ha Hr]. apply negb_true_iff in Ha. cbn [app await_eot length repeat]. rewrite Ha, (IH Hr). reflexivity. }
+  cbn [stx]. rewrite A. destruct more as [|r a2].
+  - exists [], None. rewrite <- app_comm_cons. reflexivity.
+  - destruct (r =? secsi_ACK).
+    + destruct (stx rest a2) as [sent res]. exists sent, res. rewrite <- !app_comm_cons, <- app_assoc. reflexivity.
+    + exists [], (Some false). rewrite <- app_comm_cons. reflexivity.
 Qed.
